@@ -455,6 +455,7 @@ func (r *foRun) followUp() {
 
 			rr := r.fo.Backend().Read(context.Background(), r.km.ByModel[k])
 			ev.Note = rr.Class + ":" + rr.V
+
 		}
 
 		r.s.rec(ev)
@@ -514,9 +515,11 @@ func runFoSchedule(t *testing.T, cfg FoCfg, bi int, b []foStepJ, seed int64) (ou
 			s.rec(Event{Ev: "metric", C: "refreshed", N: stat.Total(cache.MetricRefreshed, foName)})
 		}
 
-		s.rec(Event{Ev: "metric", C: "be_reads", N: stat.Total(cache.MetricHit, "be") +
-			stat.Total(cache.MetricMiss, "be") + stat.Total(cache.MetricExpired, "be")})
-		s.rec(Event{Ev: "metric", C: "be_write", N: stat.Total(cache.MetricWrite, "be")})
+		if cfg.Backend != "Default" && cfg.Backend != "NoOp" { // backends that report no metrics under the name "be"
+			s.rec(Event{Ev: "metric", C: "be_reads", N: stat.Total(cache.MetricHit, "be") +
+				stat.Total(cache.MetricMiss, "be") + stat.Total(cache.MetricExpired, "be")})
+			s.rec(Event{Ev: "metric", C: "be_write", N: stat.Total(cache.MetricWrite, "be")})
+		}
 
 		q := Event{Ev: "quiesce", N: r.fo.KeyLocks()}
 		for _, p := range cfg.Procs {
@@ -531,7 +534,7 @@ func runFoSchedule(t *testing.T, cfg FoCfg, bi int, b []foStepJ, seed int64) (ou
 
 		s.rec(q)
 
-		if q.Note == "" {
+		if q.Note == "" && cfg.Backend != "Default" { // the follow-up has to empty the backend, which Failover owns here
 			r.followUp()
 		}
 
@@ -791,9 +794,11 @@ func runFoWalk(t *testing.T, cfg FoCfg, wi int, seed int64, maxFaults, maxFails,
 			s.rec(Event{Ev: "metric", C: "refreshed", N: stat.Total(cache.MetricRefreshed, foName)})
 		}
 
-		s.rec(Event{Ev: "metric", C: "be_reads", N: stat.Total(cache.MetricHit, "be") +
-			stat.Total(cache.MetricMiss, "be") + stat.Total(cache.MetricExpired, "be")})
-		s.rec(Event{Ev: "metric", C: "be_write", N: stat.Total(cache.MetricWrite, "be")})
+		if cfg.Backend != "Default" && cfg.Backend != "NoOp" { // backends that report no metrics under the name "be"
+			s.rec(Event{Ev: "metric", C: "be_reads", N: stat.Total(cache.MetricHit, "be") +
+				stat.Total(cache.MetricMiss, "be") + stat.Total(cache.MetricExpired, "be")})
+			s.rec(Event{Ev: "metric", C: "be_write", N: stat.Total(cache.MetricWrite, "be")})
+		}
 
 		q := Event{Ev: "quiesce", N: r.fo.KeyLocks()}
 		for _, p := range cfg.Procs {
@@ -808,7 +813,7 @@ func runFoWalk(t *testing.T, cfg FoCfg, wi int, seed int64, maxFaults, maxFails,
 
 		s.rec(q)
 
-		if q.Note == "" {
+		if q.Note == "" && cfg.Backend != "Default" { // the follow-up has to empty the backend, which Failover owns here
 			r.followUp()
 		}
 
